@@ -469,7 +469,13 @@ func (g *genState) fillProps(c *chain) {
 			c.multiDef[name] = true
 			if rng.Intn(2) == 0 {
 				f2 := c.files[rng.Intn(len(c.files))]
-				g.l.Poms[f2].Props = append(g.l.Poms[f2].Props, [2]string{name, g.propValue(c, i)})
+				val := g.propValue(c, i)
+				if rng.Intn(6) == 0 {
+					// An empty element: in Maven it still replaces the inherited value.
+					val = ""
+					g.tag("prop:override-empty")
+				}
+				g.l.Poms[f2].Props = append(g.l.Poms[f2].Props, [2]string{name, val})
 				if f2 == f {
 					g.tag("prop:dup-in-file")
 				} else {
